@@ -34,18 +34,18 @@ Section ValInd.
     end.
 End ValInd.
 
-Lemma val_eqb_list m m' l l' :
-  val_eqb (VList m l) (VList m' l') = Bool.eqb m m' && list_eqb val_eqb l l'.
+Lemma val_seqb_list m m' l l' :
+  val_seqb (VList m l) (VList m' l') = Bool.eqb m m' && list_eqb val_seqb l l'.
 Proof.
-  cbn [val_eqb]. f_equal. revert l'. induction l as [|x r IH]; intros [|y r']; cbn; try reflexivity.
+  cbn [val_seqb]. f_equal. revert l'. induction l as [|x r IH]; intros [|y r']; cbn; try reflexivity.
   rewrite IH. reflexivity.
 Qed.
 
-Definition kv_eqb (p q : val * val) : bool := val_eqb (fst p) (fst q) && val_eqb (snd p) (snd q).
+Definition kv_seqb (p q : val * val) : bool := val_seqb (fst p) (fst q) && val_seqb (snd p) (snd q).
 
-Lemma val_eqb_dict m m' d d' : val_eqb (VDict m d) (VDict m' d') = list_eqb kv_eqb d d'.
+Lemma val_seqb_dict m m' d d' : val_seqb (VDict m d) (VDict m' d') = list_eqb kv_seqb d d'.
 Proof.
-  cbn [val_eqb]. revert d'. induction d as [|[k v] r IH]; intros [|[k' v'] r']; cbn; try reflexivity.
+  cbn [val_seqb]. revert d'. induction d as [|[k v] r IH]; intros [|[k' v'] r']; cbn; try reflexivity.
   rewrite IH. reflexivity.
 Qed.
 
@@ -56,53 +56,61 @@ Proof.
   - injection H as -> ->. rewrite Z.eqb_refl. cbn. apply IH. reflexivity.
 Qed.
 
-Lemma val_eqb_refl a : val_eqb a a = true.
+Lemma val_seqb_refl a : val_seqb a a = true.
 Proof.
   induction a as [| b | z | m l IH | s | m d IH] using val_ind'.
   - reflexivity.
   - cbn. apply eqb_reflx.
   - cbn. apply Z.eqb_refl.
-  - rewrite val_eqb_list, eqb_reflx. cbn.
+  - rewrite val_seqb_list, eqb_reflx. cbn.
     induction IH as [|x r Hx _ IHr]; cbn; [reflexivity|]. rewrite Hx, IHr. reflexivity.
   - cbn. apply zlist_eqb_eq. reflexivity.
-  - rewrite val_eqb_dict. induction IH as [|kv r [Hk Hv] _ IHr]; cbn; [reflexivity|]. unfold kv_eqb at 1. rewrite Hk, Hv, IHr. reflexivity.
+  - rewrite val_seqb_dict. induction IH as [|kv r [Hk Hv] _ IHr]; cbn; [reflexivity|]. unfold kv_seqb at 1. rewrite Hk, Hv, IHr. reflexivity.
 Qed.
 
-Lemma val_eqb_sym a : forall b, val_eqb a b = val_eqb b a.
+Lemma val_seqb_sym a : forall b, val_seqb a b = val_seqb b a.
 Proof.
   induction a as [| b | z | m l IH | s | m d IH] using val_ind'; intros [| b' | z' | m' l' | s' | m' d']; try reflexivity.
   - cbn. destruct b, b'; reflexivity.
   - cbn. apply Z.eqb_sym.
   - cbn. apply Z.eqb_sym.
   - cbn. apply Z.eqb_sym.
-  - rewrite !val_eqb_list. f_equal; [destruct m, m'; reflexivity|].
+  - rewrite !val_seqb_list. f_equal; [destruct m, m'; reflexivity|].
     revert l'. induction IH as [|x r Hx _ IHr]; intros [|y r']; cbn; try reflexivity.
     rewrite Hx, IHr. reflexivity.
   - cbn. destruct (list_eqb Z.eqb s s') eqn:E1, (list_eqb Z.eqb s' s) eqn:E2; try reflexivity.
     + apply zlist_eqb_eq in E1. subst. rewrite (proj2 (zlist_eqb_eq s' s') eq_refl) in E2. discriminate E2.
     + apply zlist_eqb_eq in E2. subst. rewrite (proj2 (zlist_eqb_eq s s) eq_refl) in E1. discriminate E1.
-  - rewrite !val_eqb_dict. revert d'. induction IH as [|kv r [Hk Hv] _ IHr]; intros [|kv' r']; cbn; try reflexivity.
-    unfold kv_eqb at 1 3. rewrite Hk, Hv, IHr. reflexivity.
+  - rewrite !val_seqb_dict. revert d'. induction IH as [|kv r [Hk Hv] _ IHr]; intros [|kv' r']; cbn; try reflexivity.
+    unfold kv_seqb at 1 3. rewrite Hk, Hv, IHr. reflexivity.
 Qed.
 
-Lemma val_eqb_trans a : forall b c, val_eqb a b = true -> val_eqb b c = true -> val_eqb a c = true.
+Lemma val_seqb_trans a : forall b c, val_seqb a b = true -> val_seqb b c = true -> val_seqb a c = true.
 Proof.
   induction a as [| x | x | m l IH | s | m d IH] using val_ind'; intros b c H1 H2;
     destruct b as [| y | y | m' l' | s' | m' d']; try discriminate H1;
     destruct c as [| z | z | m'' l'' | s'' | m'' d'']; try discriminate H2; try reflexivity.
-  1-8: cbn [val_eqb] in *; repeat match goal with b : bool |- _ => destruct b end; cbn [Bool.eqb] in *; lia.
-  - rewrite val_eqb_list in *. apply andb_true_iff in H1 as [M1 L1]. apply andb_true_iff in H2 as [M2 L2].
+  1-8: cbn [val_seqb] in *; repeat match goal with b : bool |- _ => destruct b end; cbn [Bool.eqb] in *; lia.
+  - rewrite val_seqb_list in *. apply andb_true_iff in H1 as [M1 L1]. apply andb_true_iff in H2 as [M2 L2].
     apply andb_true_iff. split; [destruct m, m', m''; try reflexivity; discriminate|].
     revert l' l'' L1 L2. induction IH as [|x r Hx _ IHr]; intros [|y r'] [|z r''] L1 L2; cbn in *; try reflexivity; try discriminate.
     apply andb_true_iff in L1 as [A1 B1]. apply andb_true_iff in L2 as [A2 B2].
     rewrite (Hx y z A1 A2), (IHr r' r'' B1 B2). reflexivity.
   - cbn in *. apply zlist_eqb_eq in H1. apply zlist_eqb_eq in H2. subst. apply zlist_eqb_eq. reflexivity.
-  - rewrite val_eqb_dict in *. revert d' d'' H1 H2.
+  - rewrite val_seqb_dict in *. revert d' d'' H1 H2.
     induction IH as [|kv r [Hk Hv] _ IHr]; intros [|kv' r'] [|kv'' r''] L1 L2; cbn in *; try reflexivity; try discriminate.
     apply andb_true_iff in L1 as [A1 B1]. apply andb_true_iff in L2 as [A2 B2].
-    unfold kv_eqb in A1, A2. apply andb_true_iff in A1 as [K1 V1]. apply andb_true_iff in A2 as [K2 V2].
-    unfold kv_eqb at 1. rewrite (Hk _ _ K1 K2), (Hv _ _ V1 V2), (IHr r' r'' B1 B2). reflexivity.
+    unfold kv_seqb in A1, A2. apply andb_true_iff in A1 as [K1 V1]. apply andb_true_iff in A2 as [K2 V2].
+    unfold kv_seqb at 1. rewrite (Hk _ _ K1 K2), (Hv _ _ V1 V2), (IHr r' r'' B1 B2). reflexivity.
 Qed.
+
+(* Python equality: structural equality of canonical forms, hence an equivalence on ALL values *)
+Lemma val_eqb_refl a : val_eqb a a = true.
+Proof. apply val_seqb_refl. Qed.
+Lemma val_eqb_sym a b : val_eqb a b = val_eqb b a.
+Proof. apply val_seqb_sym. Qed.
+Lemma val_eqb_trans a b c : val_eqb a b = true -> val_eqb b c = true -> val_eqb a c = true.
+Proof. apply val_seqb_trans. Qed.
 
 (* ---- subsequences -------------------------------------------------------------- *)
 Inductive subseq {A} : list A -> list A -> Prop :=
